@@ -31,7 +31,7 @@ PATHS_SMALL = ["a.rs", "src/a-b.rs", "x-7-y.rs", "Makefile", "pkg-1.2-3-rc/src/m
 NUMBERS_FULL = [None, 1, 7, 123]
 NUMBERS_SMALL = [None, 7, 123]
 CODES_FULL = ["x", "a:b", "foo-7-bar", "", "\tind", "é漢", "long " * 12 + "end", "main() main",
-              "  \t  \tint main = 2;", "\t\tmain", " \tmain"]
+              "  \t  \tint main = 2;", "\t\tmain", " \tmain", "odds = arr[1:10:2]", "at 12:30:00 main"]
 CODES_SMALL = ["x main", "a:b-3-c", "", "\tmain é", "    \t    \tint main = 2;"]
 KINDS = [("match", ":"), ("context", "-"), ("header", "=")]
 
